@@ -142,7 +142,7 @@ META2 = {
         explanation="s_step.c: a call in which the read is refused leaves the command FSM, its buffer and the variables unchanged and makes no callback; a refused write leaves the flushing machine unchanged; "
                     "reading states poll the input (at least one attempt; not 'exactly one': the property does not forbid draining several available bytes per call), other states never read. r_twin.c MODE 1: the same line run eagerly and under a symbolic schedule - up to R read and R write refusals at symbolic service steps plus one refusal tied to a symbolic BYTE boundary "
                     "(the first attempt to read byte `cut` is answered 'not yet', also between two reads of one call) - gives the same output bytes, handler log, write-handler arguments and variable values.",
-        bounds={"quick": "109 step jobs + 3 twin shapes (ATnL run, gxL malformed line with a possible CR, ATnRnL CR inside the name) with <= 1 read and <= 1 write refusal at arbitrary steps + the byte-boundary refusal", "thorough": "1516 step jobs + 4 twin shapes with <= 2 refusals of each kind"},
+        bounds={"quick": "109 step jobs + 3 twin shapes (ATnL run, gxL malformed line with a possible CR, ATnRnL CR inside the name) with <= 1 read and <= 1 write refusal at arbitrary steps + the byte-boundary refusal", "thorough": "1516 step jobs + 5 twin shapes (<= 1 refusal of each kind + the byte-boundary refusal; two of each kind were tried and do not converge within the budget)"},
         outside="more refusals in one line at line level (the step lemma covers any number)",
         assumptions=[RI_NOTE, FAMILY, "io->read returns 0 or 1 and leaves *ch alone when it returns 0"],
         level_text="inductive stutter lemma plus bounded self-composition"),
@@ -159,19 +159,19 @@ META2 = {
         level_text="inductive step per operation against an abstract FIFO"),
     "C14": dict(
         engine=E2,
-        explanation="s_step.c: in HOLD no io->read happens; hold is left only if a release was requested (status != 0 or an event handler asked in this call), straight into the matching result code; a pending "
+        explanation="s_step.c: in HOLD no io->read happens; hold is left only if a release was requested (status != 0, or an event handler returned HOLD_EXIT_OK / HOLD_EXIT_ERROR in this very call - no other code, no failing event), and no request appears that nobody made; leaving goes straight into the matching result code; a pending "
                     "request is honoured in the next call; entering hold clears any stale request. s_api.c: cat_hold_exit outside a hold = ERROR_NOT_HOLD and no effect, inside = records the status only."
                     " r_hold.c (black box, public API): each of the four handler kinds returns HOLD with a second line already waiting; release through cat_hold_exit at a symbolic step "
                     "of a window, symbolic status, optionally twice in one step with different statuses, optional spurious releases before and after: no input byte and no result code during the "
                     "suspension, cat_is_hold = HOLD exactly then, one result code matching the last requested status, then the second line is parsed and answered.",
-        bounds={"quick": "60 step jobs (HOLD x all event states, the four handler loops, event handler loops) + 4 line-level jobs (release window right after the hold begins)", "thorough": "5 release windows per kind"},
+        bounds={"quick": "96 step jobs (HOLD x all event states with a shared and with a separate event buffer of any size, the four handler loops, event handler loops with each of 9 concrete codes) + 4 line-level jobs (release window right after the hold begins)", "thorough": "5 release windows per kind"},
         outside="release through an event handler returning HOLD_EXIT_* at line level (step level only); event handlers returning HOLD are outside the property",
         assumptions=[RI_NOTE, FAMILY],
         level_text="inductive step obligations"),
     "C15": dict(
         engine=E2 + " + " + E3,
         explanation="safety: s_step.c with two consecutive calls (the application may trigger one event from inside io->read or a handler of the first call) - if the first returns OK, an immediately repeated call with no input returns OK, invokes no callback, writes nothing, changes nothing, and no event "
-                    "is queued or in progress. liveness: local progress obligations (a reading state whose read is refused, with no event pending, reports OK - waiting for input is not work; no starvation at the flush handshake in either direction, accepted byte advances the cursor, section ends advance, computing "
+                    "is queued or in progress. liveness: local progress obligations (OK only from a call that made no read attempt or whose last attempt was refused; a reading state whose read is refused, with no event pending, reports OK - waiting for input is not work; no starvation at the flush handshake in either direction, accepted byte advances the cursor, section ends advance, computing "
                     "states change something) plus the explicit linear step bound of the r_line shapes and of the event-only runs (r_evq.c: two events and a write refusal end in OK with nothing queued within 50 calls).",
         bounds={"quick": "queue capacities 1 (all quick pairs) and 2 (event-related pairs), 5 line shapes, 6 event-only runs",
                 "thorough": "capacity 1: the quick pairs plus every command state against the event FSM waiting for the output / flushing (command buffers up to 12 bytes); capacities 2,3,8: event-related pairs"},
@@ -221,8 +221,8 @@ META2 = {
                     "leave behind by RI's IDLE clause): identical output bytes, handler log, write-handler arguments, variable values. r_twin.c MODE 3 (concatenation, the property's own wording): two lines "
                     "on one parser vs the second line alone on a fresh parser with the variable values line 1 left - everything emitted after line 1's answer, the handler invocations and the variable "
                     "effects must be equal; first lines are chosen to leave the parser through its different exits (over-long implicit write, garbage, write). r_line.c: every newline of a response is "
-                    "CRLF iff a CR followed the line's first non-blank byte. r_list.c: the same for every line of a multi-line answer (the command list after AT+A<LF> and AT+A<CR><LF>).",
-        bounds={"quick": "7 fresh-vs-junk shapes + 3 concatenation shapes + 6 CR-placement shapes + 1 command-list run", "thorough": "7 concatenation shapes"},
+                    "CRLF iff a CR followed the line's first non-blank byte (CR before A, between A and T, after AT, after the name, after the arguments). s_step.c (PARSE_WRITE_ARGS, numeric variables, any pre-state): the length handed to a variable write callback is 0 for a read-only variable and data_size for a stored number - never a leftover of an earlier line; the twin runs compare that length too. r_list.c: the same for every line of a multi-line answer (the command list after AT+A<LF> and AT+A<CR><LF>).",
+        bounds={"quick": "7 fresh-vs-junk shapes + 3 concatenation shapes + 7 CR-placement shapes + 1 command-list run + 4 step jobs", "thorough": "7 concatenation shapes"},
         outside="lines longer than the shapes; that IDLE's defined fields are exactly {state, cr_flag, hold flag, cmd, cmd_type} is RI's IDLE clause (C03 jobs)",
         assumptions=["handlers return terminal codes", RI_NOTE],
         level_text="bounded self-composition through the public API; 'after any history' rests on the inductive IDLE clause of RI"),
